@@ -36,6 +36,14 @@ def run(sess: Session):
                           functions=('wn/schema.sql',)))
     for ob in placeholder_identity_obligations():
         sess.check(ob)
+    # an explicit expand argument is a specifier list resolved by find_lexicons (token by token)
+    from contracts import C08 as _c08
+    try:
+        for ob in _c08.deductive_obligations():
+            ob.prop = PROP
+            sess.check(ob)
+    except Unsupported as exc:
+        sess.unsupported('wn._queries.find_lexicons', str(exc))
     try:
         for ob in coreflows.wordnet_init_obligations(PROP):
             sess.check(ob)
